@@ -135,55 +135,170 @@ CATCH_UNWIND = {"std::panic::catch_unwind", "std::panicking::catch_unwind", "cor
 # Traits whose methods on a type parameter / dyn are NOT arbitrary user code for our purposes
 # (marker-ish or allocation-free std plumbing). Everything else on a param/dyn is user code.
 BENIGN_TRAITS = {"std::marker::Sized", "std::any::Any", "std::ptr::Pointee", "std::marker::Unpin",
-                 "std::convert::From", "std::convert::Into", "std::borrow::Borrow"}
+                 "std::convert::From", "std::convert::Into", "std::borrow::Borrow",
+                 # implemented by the std range types; internal bitmap helpers take `impl RangeBounds<usize>`
+                 "std::ops::RangeBounds"}
 
 
 def ty_mentions_user(ty):
-    """Type carries user-controlled drop glue: a type parameter, dyn, opaque/alias,
-    fn pointer or a Waker (whose drop runs a user vtable)."""
+    """Dropping a value of this type may run user-controlled code: it OWNS (by value, not
+    behind a reference / raw pointer / NonNull / PhantomData / ManuallyDrop) a type parameter,
+    a dyn object, an opaque type or a Waker (whose drop runs a user vtable)."""
+    if "oparam" in ty:
+        if ty.get("oparam") or ty.get("odyn") or ty.get("oalias"):
+            return True
+        return any(a.endswith("task::Waker") or a.endswith("task::wake::Waker") for a in ty.get("owned", []))
     if ty.get("param") or ty.get("dyn") or ty.get("alias"):
         return True
-    for a in ty.get("adts", []):
-        if a.endswith("task::Waker") or a.endswith("task::wake::Waker"):
-            return True
-    return False
+    return ty_is_waker(ty)
 
 
 def ty_is_waker(ty):
-    return any(a.endswith("task::Waker") or a.endswith("task::wake::Waker") for a in ty.get("adts", []))
+    return any(a.endswith("task::Waker") or a.endswith("task::wake::Waker") for a in ty.get("owned", ty.get("adts", [])))
 
 
 def fn_bound_params(body):
     """Names of type parameters that have an Fn-family bound in the enclosing item."""
     out = set()
     for p in body.preds:
-        m = re.match(r"^(\w+): (?:for<[^>]*> )?(?:std|core)::ops::(?:function::)?(Fn|FnMut|FnOnce|AsyncFn\w*)\b", p)
+        m = re.match(r"^(?:for<[^>]*> )?(\w+): (?:for<[^>]*> )?(?:(?:std|core)::ops::(?:function::)?)?(Fn|FnMut|FnOnce|AsyncFn\w*)\b", p)
         if m:
             out.add(m.group(1))
     return out
 
 
-class UserCode:
-    """Classifies call/drop sites as user-code points (U1..U5) with interprocedural
-    summaries over the loaded Program."""
+BENIGN_BOUND_TRAITS = ("std::ops::RangeBounds",)
 
-    def __init__(self, prog, extra_user_callees=(), benign_callees=()):
+
+def benign_params(body):
+    """Type parameters bounded by a std-only trait (e.g. `impl RangeBounds<usize>`): values of
+    such a type are std types, dropping/using them runs no user code."""
+    out = set()
+    for p in body.preds:
+        for tr in BENIGN_BOUND_TRAITS:
+            i = p.find(": " + tr)
+            if i > 0:
+                out.add(p[:i])
+    return out
+
+
+FN_TRAIT_NAMES = ("ops::FnOnce", "ops::FnMut", "ops::Fn", "ops::function::FnOnce", "ops::function::FnMut",
+                  "ops::function::Fn")
+
+
+class UserCode:
+    """Classifies call/drop sites on NORMAL (non-cleanup) paths as user-code points:
+      U1 trait method dispatched on a type parameter / dyn / opaque (incl. calling an Fn-bounded
+         parameter, reported as U1-closure-param),
+      U2 drop (terminator, drop_in_place, mem::drop ...) of a value owning a parameter/dyn/opaque/Waker,
+      U3 Waker::{wake, wake_by_ref, clone, clone_from},
+      U4 indirect call through a fn pointer,
+      U5 call of a local function (or drop glue of a local type) whose summary says so.
+    Summaries are interprocedural least fixpoints. Calls of an Fn-bounded type parameter are
+    tracked parametrically (`pinv`): they only become user code where the actual argument is the
+    caller's own Fn-bounded parameter or a closure that itself runs user code, so
+    `insert(value)` (internal closure `|u| u.write(value)`) is not mistaken for a callback."""
+
+    def __init__(self, prog, extra_user_callees=(), benign_callees=(), benign_sites=()):
         self.prog = prog
         self.extra = set(extra_user_callees)
         self.benign = set(benign_callees)
-        self.summary = {}       # body.key -> reason string (may run user code) ; absent = no
-        self.unc_summary = {}   # body.key -> reason: may run user code NOT contained by catch_unwind
+        self.benign_sites = set(benign_sites)   # (body.key, what-prefix)
+        self.summary = {}       # body.key -> reason (runs user code on some normal path)
+        self.unc_summary = {}   # body.key -> reason (.. not contained by catch_unwind)
+        self.pinv = defaultdict(set)      # body.key -> Fn-bounded param names it may invoke
+        self.unc_pinv = defaultdict(set)
         self._site_cache = {}
+        self._glue_cache = {}
+        self._drop_impls = defaultdict(list)
+        for b in prog.bodies:
+            if b.impl_trait and b.impl_trait.endswith("ops::Drop") and b.name == "drop" and b.impl_adt and not b.is_closure:
+                self._drop_impls[b.impl_adt].append(b)
         self._compute()
+
+    # -- drop glue of local types
+    def glue_bodies(self, ty):
+        """Local Drop::drop bodies that dropping a value of type `ty` may run."""
+        out = []
+        seen = set()
+        todo = list(ty.get("owned", ty.get("adts", [])))
+        while todo:
+            a = todo.pop()
+            if a in seen:
+                continue
+            seen.add(a)
+            out.extend(self._drop_impls.get(a, []))
+            adt = self.prog.adts.get(a)
+            if adt:
+                for v in adt["variants"]:
+                    for f in v["fields"]:
+                        if f["ty"].get("needs_drop", True):
+                            todo.extend(f["ty"].get("owned", f["ty"].get("adts", [])))
+        return out
+
+    def _narrow_enum(self, body, bb, t):
+        """Drop of a bare local of a local enum type that is dominated by a discriminant test:
+        only the variants that can reach the drop contribute glue."""
+        ty = t["ty"]
+        pl = t["place"]
+        if pl["p"] or ty.get("k") != "adt":
+            return ty
+        adt = self.prog.adts.get(ty.get("head", ""))
+        if not adt or adt.get("kind") != "Enum":
+            return ty
+        aliases = {pl["l"]}
+        for blk in body.blocks:
+            for s in blk.stmts:
+                if s["k"] == "assign" and s["rv"]["k"] == "use" and not s["place"]["p"] and s["place"]["l"] in aliases:
+                    l2 = op_local(s["rv"]["op"])
+                    if l2 is not None:
+                        aliases.add(l2)
+        allowed = None
+        for g in switch_guards(body, bb, unwind=False):
+            gp = guard_src_place(g["src"])
+            if g["src"].get("kind") == "discr" and gp and not gp["p"] and gp["l"] in aliases:
+                vals = set()
+                n = len(adt["variants"])
+                for a in g["allowed"]:
+                    if a == "otherwise":
+                        vals |= set(range(n)) - set(g["listed"])
+                    else:
+                        vals.add(a)
+                allowed = vals if allowed is None else (allowed & vals)
+        if allowed is None:
+            return ty
+        owned = []
+        needs = False
+        for i in sorted(allowed):
+            if i < len(adt["variants"]):
+                for f in adt["variants"][i]["fields"]:
+                    if f["ty"].get("needs_drop", True):
+                        needs = True
+                        owned.extend(f["ty"].get("owned", f["ty"].get("adts", [])))
+        # keep Drop impl of the enum itself, if any
+        return {"owned": owned + ([ty["head"]] if self._drop_impls.get(ty["head"]) else []), "needs_drop": needs, "s": ty["s"]}
+
+    def _is_benign_site(self, body, what):
+        for k, w in self.benign_sites:
+            if body.key == k and what.startswith(w):
+                return True
+        return False
 
     # -- direct classification of one terminator (ignoring callee summaries)
     def direct(self, body, bb):
-        t = body.blocks[bb].term
+        blk = body.blocks[bb]
+        if blk.cleanup:
+            return None
+        t = blk.term
         k = t["k"]
         if k == "drop":
             ty = t["ty"]
+            if ty.get("k") == "param" and ty["s"] in benign_params(body):
+                return None
             if ty.get("needs_drop") and ty_mentions_user(ty):
-                kind = "U2-waker-drop" if ty_is_waker(ty) and not (ty.get("param") or ty.get("dyn")) else "U2-drop"
+                if self._is_benign_site(body, "drop " + ("*" if "*" in t["place"]["p"] else "") + ty["s"]):
+                    return None
+                kind = "U2-waker-drop" if ty_is_waker(ty) and not (ty.get("oparam") or ty.get("odyn")) else "U2-drop"
                 return (kind, ty["s"])
             return None
         if k not in ("call", "tailcall"):
@@ -198,39 +313,26 @@ class UserCode:
             return ("U5-table", c["path"])
         if keys & WAKER_FNS:
             return ("U3-waker", c["path"])
-        if c.get("trait") and c["trait"].endswith("clone::Clone") and c.get("self_ty") and ty_is_waker(c["self_ty"]) \
-                and c["self_ty"]["k"] == "adt":
+        st = c.get("self_ty") or {}
+        if c.get("trait") and c["trait"].endswith("clone::Clone") and st.get("k") == "adt" and st.get("head", "").endswith("Waker"):
             return ("U3-waker-clone", c["full"])
         if keys & DROP_FNS:
-            # drop of a generic/dyn/waker value
             for ta in c.get("targs", []):
                 if ty_mentions_user(ta) and ta.get("needs_drop", True):
                     return ("U2-dropfn", c["full"])
             return None
-        # trait method dispatched on a parameter / dyn / opaque
-        if c.get("trait") and c.get("rkind") in ("unresolved", "virtual"):
+        if c.get("trait") and (c.get("rkind") in ("unresolved", "virtual") or c.get("rtrait_default")):
             tr = c["trait"]
             if tr in BENIGN_TRAITS:
                 return None
-            st = c.get("self_ty") or {}
+            if st.get("k") == "param" and any(tr.endswith(n) for n in FN_TRAIT_NAMES):
+                return ("P", st["s"])
             if st.get("param") or st.get("dyn") or st.get("alias") or c.get("rkind") == "virtual":
                 return ("U1-dyn" if c.get("rkind") == "virtual" else "U1-generic", c["full"])
-        if c.get("trait") and c.get("rtrait_default"):
-            st = c.get("self_ty") or {}
-            if st.get("param") or st.get("dyn") or st.get("alias"):
-                return ("U1-generic", c["full"])
-        # user closure (type param with Fn bound) handed to a non-local combinator
-        if not c.get("local") and not c.get("rlocal"):
-            fb = fn_bound_params(body)
-            if fb:
-                for ta in c.get("targs", []):
-                    if ta["k"] == "param" and ta["s"] in fb:
-                        return ("U1-closure-arg", c["full"])
         return None
 
     def linked_closures(self, body, t):
-        """Local closure/fn bodies that a call may invoke because they appear in its generic args
-        or because a closure value is passed as an argument."""
+        """Local closure/fn bodies that appear in the call's generic arguments."""
         c = t["callee"]
         out = []
         for ta in c.get("targs", []):
@@ -244,84 +346,151 @@ class UserCode:
                     out.append(b[0])
         return out
 
+    def fn_param_actuals(self, body, t):
+        """Fn-bounded params of `body` passed as generic args of the call."""
+        fb = fn_bound_params(body)
+        out = set()
+        if not fb:
+            return out
+        for ta in t["callee"].get("targs", []):
+            if ta["k"] == "param" and ta["s"] in fb:
+                out.add(ta["s"])
+            elif ta.get("param"):
+                for n in fb:
+                    if re.search(r"\b%s\b" % re.escape(n), ta["s"]):
+                        out.add(n)
+        return out
+
     def callees(self, body, bb):
-        """Local bodies possibly invoked by the terminator at bb: resolved callee and linked closures."""
-        t = body.blocks[bb].term
-        if t["k"] not in ("call", "tailcall"):
-            return []
-        c = t["callee"]
+        """(local body, how) pairs possibly run by the terminator at bb."""
+        blk = body.blocks[bb]
+        t = blk.term
         out = []
+        if t["k"] == "drop":
+            if t["ty"].get("needs_drop"):
+                what = "drop " + ("*" if "*" in t["place"]["p"] else "") + t["ty"]["s"]
+                if self._is_benign_site(body, what):
+                    return out
+                out.extend((g, "glue") for g in self.glue_bodies(self._narrow_enum(body, bb, t)))
+            return out
+        if t["k"] not in ("call", "tailcall"):
+            return out
+        c = t["callee"]
         if c.get("rkind") == "indirect":
+            return out
+        keys = callee_paths(c)
+        if keys & DROP_FNS:
+            for ta in c.get("targs", []):
+                out.extend((g, "glue") for g in self.glue_bodies(ta))
             return out
         b = self.prog.body_for_callee(c)
         if b is not None:
-            out.append(b)
+            out.append((b, "call"))
+            # closures passed along may be invoked by the callee: only if the callee invokes params
         else:
-            out.extend(self.linked_closures(body, t))
-        # calling a local closure via FnOnce::call_once(closure_local,..)
+            out.extend((cb, "linked") for cb in self.linked_closures(body, t))
         st = c.get("self_ty")
         if st and st.get("k") == "closure":
             bs = self.prog.by_key.get(strip_generics(st["head"]))
             if bs:
-                out.append(bs[0])
+                out.append((bs[0], "call"))
         return out
 
     def is_catch_unwind(self, t):
         return t["k"] == "call" and bool(callee_paths(t["callee"]) & CATCH_UNWIND)
 
+    def _eval(self, body, bb):
+        """Returns (user_reason or None, contained: bool, params: set) for terminator bb using current summaries."""
+        d = self.direct(body, bb)
+        t = body.blocks[bb].term
+        where = body.loc(t["span"])
+        if d:
+            if d[0] == "P":
+                return None, False, {d[1]}
+            return f"{d[0]} {d[1]} at {where}", False, set()
+        if body.blocks[bb].cleanup:
+            return None, False, set()
+        if t["k"] not in ("call", "tailcall", "drop"):
+            return None, False, set()
+        contained = self.is_catch_unwind(t)
+        reason = None
+        unc = False
+        params = set()
+        for cb, how in self.callees(body, bb):
+            if cb.key in self.summary:
+                reason = reason or f"calls {cb.key} at {where}"
+                if not contained and cb.key in self.unc_summary:
+                    unc = True
+            inv = self.pinv.get(cb.key)
+            if inv:
+                if how == "linked" or cb.is_closure and cb.root == body.root:
+                    # closure shares the generics of its parent: names carry over
+                    params |= inv
+                else:
+                    act = self.fn_param_actuals(body, t)
+                    params |= act
+                    for c2 in self.linked_closures(body, t):
+                        if c2.key in self.summary:
+                            reason = reason or f"calls {cb.key} with closure {c2.key} at {where}"
+                            if not contained and c2.key in self.unc_summary:
+                                unc = True
+                        params |= self.pinv.get(c2.key, set())
+        # a non-local combinator receiving the body's own Fn-bounded parameter
+        if t["k"] in ("call", "tailcall") and not self.prog.body_for_callee(t["callee"]) and \
+                not (callee_paths(t["callee"]) & self.benign):
+            c = t["callee"]
+            if not c.get("local") and not c.get("rlocal"):
+                fb = fn_bound_params(body)
+                for ta in c.get("targs", []):
+                    if ta["k"] == "param" and ta["s"] in fb:
+                        params.add(ta["s"])
+        return reason, (reason is not None and not unc), params
+
     def _compute(self):
         prog = self.prog
-        # seeds
-        for b in prog.bodies:
-            for blk in b.blocks:
-                d = self.direct(b, blk.idx)
-                if d:
-                    self.summary.setdefault(b.key, f"{d[0]} {d[1]} at {b.loc(blk.term['span'])}")
-                    self.unc_summary.setdefault(b.key, f"{d[0]} {d[1]} at {b.loc(blk.term['span'])}")
         changed = True
-        while changed:
+        rounds = 0
+        while changed and rounds < 50:
             changed = False
+            rounds += 1
             for b in prog.bodies:
-                need = b.key not in self.summary
-                need_u = b.key not in self.unc_summary
-                if not (need or need_u):
-                    continue
                 for blk in b.blocks:
-                    t = blk.term
-                    if t["k"] not in ("call", "tailcall"):
+                    if blk.cleanup:
                         continue
-                    contained = self.is_catch_unwind(t)
-                    for cb in self.callees(b, blk.idx):
-                        if need and cb.key in self.summary:
-                            self.summary[b.key] = f"calls {cb.key} at {b.loc(t['span'])}"
-                            need = False
-                            changed = True
-                        if need_u and not contained and cb.key in self.unc_summary:
-                            self.unc_summary[b.key] = f"calls {cb.key} at {b.loc(t['span'])}"
-                            need_u = False
-                            changed = True
-                    if not (need or need_u):
-                        break
+                    reason, contained, params = self._eval(b, blk.idx)
+                    if reason and b.key not in self.summary:
+                        self.summary[b.key] = reason
+                        changed = True
+                    if reason and not contained and b.key not in self.unc_summary:
+                        self.unc_summary[b.key] = reason
+                        changed = True
+                    if params - self.pinv[b.key]:
+                        self.pinv[b.key] |= params
+                        changed = True
 
     def site(self, body, bb):
-        """None or dict(kind, what, contained) if the terminator at bb may run user code."""
+        """None or dict(kind, what, contained, chain) if the terminator at bb may run user code
+        (from the point of view of `body`: invoking its own Fn-bounded parameter counts)."""
         key = (body.key, bb)
         if key in self._site_cache:
             return self._site_cache[key]
         res = None
-        d = self.direct(body, bb)
-        t = body.blocks[bb].term
-        if d:
-            res = {"kind": d[0], "what": d[1], "contained": False, "chain": ""}
-        elif t["k"] in ("call", "tailcall"):
-            contained = self.is_catch_unwind(t)
-            for cb in self.callees(body, bb):
-                if cb.key in self.summary:
-                    unc = (not contained) and cb.key in self.unc_summary
-                    res = {"kind": "U5-summary", "what": cb.key, "contained": not unc,
-                           "chain": self.explain(cb.key)}
-                    if unc:
-                        break
+        if not body.blocks[bb].cleanup:
+            d = self.direct(body, bb)
+            t = body.blocks[bb].term
+            if d and d[0] == "P":
+                res = {"kind": "U1-closure-param", "what": f"call of parameter {d[1]}", "contained": False, "chain": ""}
+            elif d:
+                res = {"kind": d[0], "what": d[1], "contained": False, "chain": ""}
+            else:
+                reason, contained, params = self._eval(body, bb)
+                if reason:
+                    m = re.match(r"calls (\S+)", reason)
+                    tgt = m.group(1) if m else reason
+                    res = {"kind": "U5-summary", "what": tgt, "contained": contained, "chain": self.explain(tgt)}
+                elif params & fn_bound_params(body) or (params and body.is_closure):
+                    res = {"kind": "U1-closure-param", "what": f"passes parameter {sorted(params)} to code that calls it",
+                           "contained": self.is_catch_unwind(t), "chain": ""}
         self._site_cache[key] = res
         return res
 
@@ -332,10 +501,10 @@ class UserCode:
             seen.add(key)
             r = self.summary[key]
             out.append(f"{key}: {r}")
-            m = re.match(r"calls (\S+) at", r)
+            m = re.match(r"calls (\S+)(?: with closure (\S+))? at", r)
             if not m:
                 break
-            key = m.group(1)
+            key = m.group(2) or m.group(1)
             depth -= 1
         return " <- ".join(out)
 
